@@ -5,7 +5,7 @@ CONSTANTS
   ActNames = {"Remove","Empty","SetVr","Truncate","PushStr","PushU16","SetStr","Set","SetIfMissing","SetStrIfMissing","Replace","ReplaceStr"}
   MaxLen = 2
   Modes = {"ops", "tables", "files"}
-  DeepBases = {"minimal", "mixed"}
+  DeepBases = {"mixed"}
   DeepTargets = {"cls", "ts", "ivn", "src", "pcu", "priv", "other2"}
   DeepActNames = {"Remove","Empty","Truncate","SetStr","SetIfMissing","Replace","PushStr"}
   FileBases = {"odd", "even", "mixed"}
